@@ -122,13 +122,24 @@ func genTxnSchema(rng *rand.Rand, withRefs bool) TxnSchema {
 				}
 			}
 		}
-		switch rng.Intn(4) {
+		hasFixed := false
+		for _, c := range t.Cols {
+			hasFixed = hasFixed || c.Name == "fixed"
+		}
+		switch rng.Intn(5) {
 		case 0:
 			t.Indexes = [][]string{{"name"}}
 		case 1:
 			t.Indexes = [][]string{{"name"}, {"n"}}
 		case 2:
 			t.Indexes = [][]string{{"name", "n"}}
+		case 3:
+			// two columns of one type: ("", "a") and ("a", "") are different tuples
+			if hasFixed {
+				t.Indexes = [][]string{{"name", "fixed"}}
+			} else {
+				t.Indexes = [][]string{{"name", "n"}}
+			}
 		}
 		spec.Tables = append(spec.Tables, t)
 	}
@@ -679,6 +690,8 @@ func genTxn(rng *rand.Rand, ts TxnSchema, sh *shadow, nops int) TxnJ {
 		if op, ok := g.genWaitDup(); ok {
 			t.Ops = append(t.Ops, op)
 		}
+	case 23:
+		t.Ops = append(t.Ops, g.genTupleConfuse()...)
 	case 21, 22:
 		if ops := g.genChainDrop(); ops != nil && rng.Intn(3) != 0 {
 			t.Ops = append(t.Ops, ops...)
@@ -1290,6 +1303,45 @@ func (g *txnGen) genOneIndexUpdate() []OperationJ {
 		}
 		g.sh.pending = &pendingClaim{t.Name, u, other}
 		return []OperationJ{{Op: "update", Table: t.Name, Row: row, Where: byUUID(u)}}
+	}
+	return nil
+}
+
+// genTupleConfuse: an index over two columns of one type is keyed by the pair, not by what is left of it once
+// default values are taken out: two rows ("", x) and (x, "") are inserted (different tuples, both legal), and
+// the next transaction claims the tuple of the first one (which must be refused)
+func (g *txnGen) genTupleConfuse() []OperationJ {
+	for _, t := range g.ts.Spec.Tables {
+		for _, ix := range t.Indexes {
+			if len(ix) != 2 || t.Col(ix[0]).Type.Key != "string" || t.Col(ix[1]).Type.Key != "string" {
+				continue
+			}
+			x := fmt.Sprintf("z%d", g.rng.Intn(100000))
+			mk := func(a, b string) OperationJ {
+				row := Row{}
+				for _, c := range t.Cols {
+					if c.RefTable == "" && c.ValRefTable == "" && g.rng.Intn(2) == 0 {
+						row[c.Name] = nativeToOvsValue(g.genColValue(c))
+					}
+				}
+				for _, other := range t.Indexes {
+					for _, c := range other {
+						if t.Col(c).Type.Key == "string" {
+							row[c] = VA(AS(fmt.Sprintf("w%d", g.rng.Intn(1000000))))
+						} else {
+							row[c] = VA(AI(int64(9000 + g.rng.Intn(100000))))
+						}
+					}
+				}
+				row[ix[0]], row[ix[1]] = VA(AS(a)), VA(AS(b))
+				op := OperationJ{Op: "insert", Table: t.Name, Row: row, UUID: g.sh.fresh()}
+				g.inserted[t.Name] = append(g.inserted[t.Name], op.UUID)
+				return op
+			}
+			first := mk("", x)
+			g.sh.pending = &pendingClaim{t.Name, first.UUID, ix}
+			return []OperationJ{first, mk(x, "")}
+		}
 	}
 	return nil
 }
